@@ -63,9 +63,11 @@ def multiply(
     shape = numpy.broadcast_shapes(x1.shape, x2.shape)
 
     where = numpy.asarray(where)
+    # sum in a wide type: an exponent sum beyond the uint32 storage range must
+    # be rejected by the constructor below instead of wrapping around.
     exponents = numpy.unique(
-        numpy.tile(x1.exponents, (len(x2.exponents), 1))
-        + numpy.repeat(x2.exponents, len(x1.exponents), 0),
+        numpy.tile(x1.exponents.astype(int), (len(x2.exponents), 1))
+        + numpy.repeat(x2.exponents.astype(int), len(x1.exponents), 0),
         axis=0,
     )
     out_ = (
